@@ -17,7 +17,8 @@
 // Marshal→Unmarshal, MarshalPacked→UnmarshalPacked, Encoder→Decoder packed
 // and unpacked (the message written twice by one Encoder and read twice by
 // one Decoder, with and without ReuseBuffer) through readers delivering
-// chunks of {1,2,3,7,8,9,whole} bytes all yield the model tree of the root.
+// chunks of {1,2,3,7,8,9,whole} bytes ({3,whole} while the root is still
+// null) all yield the model tree of the root.
 package main
 
 import (
@@ -126,7 +127,12 @@ func oracle(r *vlib.Rec) bfsbuild.Oracle {
 					fail("roundtrip/"+path+"/error", "second Encode: "+err.Error())
 					continue
 				}
-				for _, k := range chunks {
+				cs := chunks
+				if want.IsNull() {
+					// nothing but the segment table varies: two chunkings do
+					cs = []int{3, 0}
+				}
+				for _, k := range cs {
 					for _, reuse := range []bool{false, true} {
 						if reuse && k != 3 && k != 0 {
 							continue
